@@ -45,3 +45,91 @@ Theorem C01_exec_fuel_monotone :
   exec D host listened maxdepth fu' depth ii s f is = o.
 Proof. exact exec_fuel_mono. Qed.
 Print Assumptions C01_exec_fuel_monotone.
+
+(* ================================================================ the interpreter's value discipline
+   wazero's interpreter keeps every value in an untyped 64-bit slot; i32 values occupy zero-extended slots and
+   several operators rely on that (Ne / unsigned comparisons / Eqz test the WHOLE slot). The slot-level
+   operators below are NOT transcribed: Gen/GenInterp.v is regenerated on every run by go2coq's stack-effect
+   mode from the `case operationKindX:` bodies of callEngine.callNativeFunc (interpreter.go) and from the
+   opcode lowering in compiler.handleInstruction + the newOperationX constructors (compiler.go,
+   operations.go); Wasm/Slots.v only names the wasm opcode each constructor of Sem.v's unop/binop stands for.
+   wf w x := 0 <= x < 2^w; un_in/bin_in are the operand widths, un_out/bin_out the result widths. *)
+From Verif Require Import Lib.GoInt Lib.StackEff Gen.GenInterp Wasm.Slots Proofs.SemRelP Proofs.SlotsP.
+
+(* every integer unop/binop/relop/conversion of W, on slots well-formed for the operand type (i32: < 2^32),
+   returns the zero-extended encoding of the specification's result, which is a well-formed slot of the result
+   type; where the specification traps, the interpreter panics with the matching wasmruntime sentinel; no Go
+   run-time panic, stack underflow or floating-point path occurs *)
+Theorem C01_slot_ops_refine :
+  (forall o x, valid_un o = true -> wf (un_in o) x ->
+     slot_un_eff o x = Eff [spec_un o x] /\ wf (un_out o) (spec_un o x)) /\
+  (forall o x y, valid_bin o = true -> wf (bin_in o) x -> wf (bin_in o) y ->
+     match spec_bin o x y with
+     | Some v => slot_bin_eff o x y = Eff [v] /\ wf (bin_out o) v
+     | None => (y = 0 /\ slot_bin_eff o x y = ETrap ErrRuntimeIntegerDivideByZero) \/
+               (y <> 0 /\ slot_bin_eff o x y = ETrap ErrRuntimeIntegerOverflow)
+     end).
+Proof. exact (conj slot_un_refines slot_bin_refines). Qed.
+Print Assumptions C01_slot_ops_refine.
+
+(* SpecG is the specification left open where it is undefined: an operator applied to a value that is not of
+   its operand type (or a constructor that is no wasm opcode). On typed applications it is Spec, literally. *)
+Theorem C01_guarded_spec_is_spec_on_typed_operands :
+  (forall o x, valid_un o = true -> wf (un_in o) x -> d_un SpecG o x = d_un Spec o x) /\
+  (forall o x y, valid_bin o = true -> wf (bin_in o) x -> wf (bin_in o) y -> d_bin SpecG o x y = d_bin Spec o x y).
+Proof. exact (conj specg_un_on_wf specg_bin_on_wf). Qed.
+Print Assumptions C01_guarded_spec_is_spec_on_typed_operands.
+
+(* the slot machine and the (completed) specification run EVERY program in lock step — all control flow, calls,
+   indirect calls, host functions (returning, panicking, exiting, re-entering), listeners, memory, globals:
+   same outcome kind, equal result slots, equal globals, memories, tables and event log, for every fuel.
+   Instance of SemRelP.exec_rel with D1 := Slot, D2 := SpecG, Rv := equality of the 64-bit patterns. *)
+Theorem C01_slot_machine_refines_guarded_spec :
+  forall host listened maxdepth fuel depth ii (s1 : store Slot) (s2 : store SpecG) f1 f2 is,
+  store_eq (fun (a : val Slot) (b : val SpecG) => a = b) s1 s2 ->
+  Rf Slot SpecG (fun (a : val Slot) (b : val SpecG) => a = b) f1 f2 ->
+  out_rel Slot SpecG (fun (a : val Slot) (b : val SpecG) => a = b) (store_eq (fun (a : val Slot) (b : val SpecG) => a = b))
+    (exec Slot host listened maxdepth fuel depth ii s1 f1 is)
+    (exec SpecG host listened maxdepth fuel depth ii s2 f2 is).
+Proof. exact slot_machine_refines_guarded_spec. Qed.
+Print Assumptions C01_slot_machine_refines_guarded_spec.
+
+(* PARTIAL (typing hypothesis): against the specification itself. W is untyped, so "the program is validated"
+   is stated semantically as the third hypothesis: on this run the specification's outcome does not depend on
+   how ill-typed operator applications are completed (SpecG and Spec agree). Validation guarantees it for every
+   module (each operator only receives values of its operand type); that implication is NOT proved here. *)
+Theorem C01_slot_machine_refines_spec_partial :
+  forall host listened maxdepth fuel depth ii (s1 : store Slot) (sg : store SpecG) (s2 : store Spec) f1 fg f2 is,
+  store_eq (fun (a : val Slot) (b : val SpecG) => a = b) s1 sg ->
+  Rf Slot SpecG (fun (a : val Slot) (b : val SpecG) => a = b) f1 fg ->
+  out_rel SpecG Spec (fun (a : val SpecG) (b : val Spec) => a = b) (store_eq (fun (a : val SpecG) (b : val Spec) => a = b))
+    (exec SpecG host listened maxdepth fuel depth ii sg fg is)
+    (exec Spec host listened maxdepth fuel depth ii s2 f2 is) ->
+  out_rel Slot Spec (fun (a : val Slot) (b : val Spec) => a = b) (store_eq (fun (a : val Slot) (b : val Spec) => a = b))
+    (exec Slot host listened maxdepth fuel depth ii s1 f1 is)
+    (exec Spec host listened maxdepth fuel depth ii s2 f2 is).
+Proof. exact slot_machine_refines_spec_partial. Qed.
+Print Assumptions C01_slot_machine_refines_spec_partial.
+
+(* W's structural Select is the generated body of operationKindSelect (scalar target): the condition is tested
+   on the whole slot *)
+Theorem C01_select_matches_generated :
+  forall c b a stk,
+  exec_operationKindSelect 0 0 false (c :: b :: a :: stk) = Eff ((if truthy Slot c then a else b) :: stk).
+Proof. exact select_matches_generated. Qed.
+Print Assumptions C01_select_matches_generated.
+
+(* well-formedness is needed: with a slot that is not zero-extended (what the F06 defect injected through a host
+   function) Ne, LtU, Eqz and the branch condition disagree with the specification applied to the i32 values
+   the slots encode — closed witnesses; Eq, which truncates first, is immune *)
+Theorem C01_wf_needed_refuted :
+  (slot_bin_eff (BRel 32 Ne) 18446744073709551615 4294967295 = Eff [1] /\
+   spec_bin (BRel 32 Ne) (modN 32 18446744073709551615) (modN 32 4294967295) = Some 0) /\
+  (slot_bin_eff (BRel 32 LtU) 4294967296 1 = Eff [0] /\
+   spec_bin (BRel 32 LtU) (modN 32 4294967296) (modN 32 1) = Some 1) /\
+  (slot_un_eff (UEqz 32) 4294967296 = Eff [0] /\ spec_un (UEqz 32) (modN 32 4294967296) = 1) /\
+  (truthy Slot 4294967296 = true /\ truthy Spec (modN 32 4294967296) = false) /\
+  (slot_bin_eff (BRel 32 Eq) 18446744073709551615 4294967295 = Eff [1] /\
+   spec_bin (BRel 32 Eq) (modN 32 18446744073709551615) (modN 32 4294967295) = Some 1).
+Proof. exact wf_needed_refuted. Qed.
+Print Assumptions C01_wf_needed_refuted.
